@@ -345,6 +345,9 @@ func (w *World) ExecWith(o Op) Obs {
 		for _, r := range o.Resources {
 			v.Add("resource", r)
 		}
+		if o.Assertion != "" {
+			v.Set("assertion", o.Assertion)
+		}
 		w.hg, w.ba = o.HG, o.BA
 		hdr := http.Header{}
 		w.applyBind(o.Bind, hdr, "POST", pfx+"/token")
